@@ -1638,9 +1638,14 @@ func (vc *Credential) raw() (*rawCredential, error) {
 		schema = vc.Schemas
 	}
 
-	issuer, err := issuerToRaw(vc.Issuer)
-	if err != nil {
-		return nil, err
+	var issuer json.RawMessage
+
+	if vc.Issuer.ID != "" || len(vc.Issuer.CustomFields) > 0 {
+		// a credential without issuer has no issuer member (not an invented "issuer": "")
+		issuer, err = issuerToRaw(vc.Issuer)
+		if err != nil {
+			return nil, err
+		}
 	}
 
 	subject, err := subjectToBytes(vc.Subject)
